@@ -13,7 +13,7 @@ import re
 from . import core
 from .core import log, MachineryError
 
-EVENT_KEYS = ("p", "a", "o", "old", "new", "ok", "obs", "done")
+EVENT_KEYS = ("p", "a", "o", "old", "new", "ok", "spur", "obs", "done")
 
 
 class ConcSpec:
@@ -77,6 +77,9 @@ def write_gen(wd, module, sites):
 def collect_traces(rep, spec, exe, tier, seed):
     """Run the harness over the scenario grid. Returns list of executions (list of records)."""
     execs = []
+    if spec.preempt is not None:
+        rep.exhaustive = False
+        rep.notes.append("%s: schedules enumerated exhaustively up to %d preemptions per execution" % (spec.scenario, spec.preempt))
     for params in spec.grid:
         lines, summary, crashed, err = core.run_vrt(exe, spec.scenario, params, mode="dfs", max_execs=spec.dfs_max,
                                                     seed=seed, preempt=spec.preempt)
@@ -254,7 +257,15 @@ def replay_paths(rep, spec, wd, exe):
         return 0
     stdin = []
     for b in behaviours:
-        sched = [e["p"] for e in b["evs"] if e["p"] != "root"]
+        evs = [e for e in b["evs"] if e["p"] != "root"]
+        sched = [e["p"] for e in evs]
+        for k, e in enumerate(evs):
+            if e.get("spur"):
+                # the failure is decided in the tail of the same process' previous slice
+                for j in range(k - 1, -1, -1):
+                    if evs[j]["p"] == e["p"]:
+                        sched[j] += "^"
+                        break
         stdin.append(",".join("%s=%s" % kv for kv in sorted(b["scen"].items())) + "|" + ",".join(sched))
     lines, summary, crashed, err = core.run_vrt(exe, spec.scenario, {}, mode="replay", stdin="\n".join(stdin) + "\n")
     execs = core.split_execs(lines)
